@@ -80,6 +80,22 @@ OPS = [
 ]
 
 
+# second set (tag "2"): statement deletion, numeric-constant nudges, inclusive/exclusive range flips, swapped arguments
+OPS2 = [
+    ("stmt-deleted", r"^(\s*)((?:self\.)?[a-z_][a-zA-Z0-9_.\[\]]*\s*(?:\+|-|\*)?=\s*[^=].*;)\s*$", r"\1"),
+    ("hex+1", r"\b0x([0-9A-Fa-f]{2,6})\b", lambda m: "0x%X" % (int(m.group(1), 16) + 1)),
+    ("hex-1", r"\b0x([0-9A-Fa-f]{2,6})\b", lambda m: "0x%X" % max(0, int(m.group(1), 16) - 1)),
+    ("dec+1", r"(?<=[\s(\[,])([2-9]|[1-9][0-9]{1,3})(?=[\s;,)\]])", lambda m: str(int(m.group(1)) + 1)),
+    ("incl->excl", r"\.\.=", ".."),
+    ("excl->incl", r"(?<=[\w)])\.\.(?=[\w(])", "..="),
+    ("args-swapped", r"\(([a-z_][a-z0-9_.]*), ([a-z_][a-z0-9_.]*)\)", r"(\2, \1)"),
+    ("len->len-1", r"\.len\(\)(?!\s*[-+])", ".len() - 1"),
+    ("deref-min", r"\bMIN\b", "MAX"),
+    ("deref-max", r"\bMAX\b", "MIN"),
+]
+TAG = ""
+
+
 def owners(path):
     for rx, cs in OWNERS:
         if re.search(rx, path):
@@ -126,14 +142,16 @@ def gen(every):
                 p = os.path.join(dp, fn)
                 rel = os.path.relpath(p, "/repo")
                 for n, code in code_lines(p):
-                    for name, rx, rep in OPS:
+                    for name, rx, rep in (OPS2 if TAG == "2" else OPS):
                         for m in re.finditer(rx, code):
                             # skip generics / lifetimes / trait bounds heuristically
                             if name in ("lt->le", "gt->ge") and re.search(r"\b(fn|impl|where|struct|enum|type|trait)\b", code):
                                 continue
                             if name in ("plus->minus",) and ("'" in code or re.search(r"\b(impl|where|dyn)\b|:\s*\w+\s*\+", code)):
                                 continue
-                            new = code[: m.start()] + rep + code[m.end():]
+                            new = code[: m.start()] + (rep(m) if callable(rep) else m.expand(rep)) + code[m.end():]
+                            if new.rstrip() == code.rstrip():
+                                continue
                             muts.append({"file": rel, "line": n, "op": name, "col": m.start(), "old": code.rstrip(), "new": new.rstrip()})
     # deterministic thinning: stable hash order, keep every K-th per (file, op)
     muts.sort(key=lambda m: (m["file"], m["line"], m["col"], m["op"]))
@@ -147,7 +165,7 @@ def gen(every):
         muts = keep
     for i, m in enumerate(muts):
         m["id"] = i
-    with open(os.path.join(BASE, "mutants.jsonl"), "w") as f:
+    with open(os.path.join(BASE, f"mutants{TAG}.jsonl"), "w") as f:
         for m in muts:
             f.write(json.dumps(m) + "\n")
     by = {}
@@ -217,9 +235,9 @@ def run_one(w, m, slow_ok=True):
 
 
 def run(workers, limit, files_rx):
-    muts = [json.loads(l) for l in open(f"{BASE}/mutants.jsonl")]
+    muts = [json.loads(l) for l in open(f"{BASE}/mutants{TAG}.jsonl")]
     done = set()
-    rp = f"{BASE}/results.jsonl"
+    rp = f"{BASE}/results{TAG}.jsonl"
     if os.path.exists(rp):
         done = {json.loads(l)["id"] for l in open(rp)}
     todo = [m for m in muts if m["id"] not in done and (not files_rx or re.search(files_rx, m["file"]))]
@@ -254,7 +272,7 @@ def run(workers, limit, files_rx):
 
 
 def report():
-    rs = [json.loads(l) for l in open(f"{BASE}/results.jsonl")]
+    rs = [json.loads(l) for l in open(f"{BASE}/results{TAG}.jsonl")]
     st = {}
     for r in rs:
         st[r["status"]] = st.get(r["status"], 0) + 1
@@ -276,6 +294,7 @@ if __name__ == "__main__":
     a = sys.argv[1:]
     def opt(name, default=None):
         return a[a.index(name) + 1] if name in a else default
+    TAG = opt("--tag", "")
     if a[0] == "gen":
         gen(int(opt("--every", "1")))
     elif a[0] == "run":
